@@ -62,7 +62,7 @@ def generate(tier, rng, mode):
         e1 = itercorpus.make_enum('c05_%d' % k, 'EnC05x%d' % k, N, 'none', unit_only=(N % 2 == 0)); k += 1
         # same number of enabled variants, with disabled ones interleaved and a type parameter
         total = N + 3
-        e2 = itercorpus.make_enum('c05_%d' % k, 'EnC05x%d' % k, total, 'none', generics='ty' if N else ''); k += 1
+        e2 = itercorpus.make_enum('c05_%d' % k, 'EnC05x%d' % k, total, 'none', generics=['ty', 'where', 'ty_nd', 'const'][N % 4] if N else ''); k += 1
         dis_pos = [0, total // 2, total - 1]
         for i in dis_pos:
             e2.variants[i].dis = True
